@@ -26,3 +26,15 @@ Fixpoint call_after_shutdown (l : list site) (free : nat) : outcome * nat :=
   end.
 
 Definition all_guarded (l : list site) : bool := forallb s_guarded l.
+
+(* ---- the other direction: the event loop answers a request with a bare send on the reply channel the caller made.
+   The caller may have left already (it selects on the shutdown context while handing the request over, and possibly
+   while waiting for the answer).  The loop's send returns iff the channel has a free slot or the caller is still
+   waiting; a caller that receives unconditionally is always still waiting. ---- *)
+Record reply := { r_fn : string; r_req : string; r_buffered : bool; r_plain_recv : bool }.
+Definition reply_send (r : reply) (caller_left : bool) : outcome :=
+  if r_buffered r then Returned else if caller_left then BlockedForever else Returned.
+(* can the caller leave before the answer arrives? only if it does not receive unconditionally *)
+Definition caller_may_leave (r : reply) : bool := negb (r_plain_recv r).
+Definition reply_safe (r : reply) : bool := r_buffered r || r_plain_recv r.
+Definition all_replies_safe (l : list reply) : bool := forallb reply_safe l.
